@@ -15,6 +15,8 @@
 (*                  the current settings) and optionally the parse events; after Parse the parse events of the   *)
 (*                  new object.  An action event CHANGES the settings x every later event is judged against;      *)
 (*                  an action the R-spec does not offer in that state leaves the trace STUCK (harness error).     *)
+(*   range trace  : Build, Request, Outcome   (clause Carried: a number a header field cannot hold is refused,     *)
+(*                  a number it can hold comes out of the emitted bytes and of the parser unchanged)               *)
 EXTENDS Mbi, Json, IOUtils
 Traces == ndJsonDeserialize(IOEnv.TRACE_FILE)
 VARIABLES tid, l, bad,
@@ -105,7 +107,13 @@ TParse == Act("Parse")
 \* EVERY export of a history is the export of a fresh object holding the current settings: same length, the bytes differ at most inside
 \* signature fields (and what is computed over a signature that the fresh object had to make again)
 TFresh == Is("Fresh") /\ Judge(E.ok = TRUE /\ E.len = Sum(S) /\ DiffsInside(SigRange(x) \cup IskRange(x)))
-THist == TExport \/ TSetApp \/ TSetTz \/ TClearTz \/ TSetKs \/ TClearKs \/ TReconfigure \/ TParse \/ TFresh
+\* ---- Carried: a requested number is refused or carried, never altered (Mbi.tla "what a header field can hold")
+\*      range trace : Build, Request(field, class, w), Outcome(built, present, emitted, parsed)
+\* the request must be one of the case space (else the trace is STUCK: harness error); the outcome is judged against the request before it
+TRequest == Is("Request") /\ FieldOffered(E.field) /\ E.class \in RangeClasses(E.field) /\ InClass(E.field, E.class, E.w) /\ Judge(TRUE)
+TOutcome == Is("Outcome") /\ l > 1 /\ T[l - 1].ev = "Request" /\ IsWide(E.emitted) /\ IsWide(E.parsed)
+            /\ Judge(Carried(T[l - 1].field, T[l - 1].w, E))
+THist == TRequest \/ TOutcome \/ TExport \/ TSetApp \/ TSetTz \/ TClearTz \/ TSetKs \/ TClearKs \/ TReconfigure \/ TParse \/ TFresh
 TNext == THist \/ TBuild \/ TExpLen \/ TExpFlags \/ TExpW28 \/ TExpLoad \/ TExpLayout \/ TExpReloc \/ TExpManifest
          \/ TParseOk \/ TParseApp \/ TParseTz \/ TParseWords \/ TParseKs \/ TParseReloc \/ TParseMisc \/ TReObj \/ TReCfg
 Constr == IF TLCGet(tid) < l THEN TLCSet(tid, l) ELSE TRUE
